@@ -6,6 +6,27 @@ def N(q, t):
 UTF8 = "strings are modelled as code-point lists: exact for valid UTF-8; invalid UTF-8 is outside the model"
 
 PROPS = {
+    "C01": dict(
+        level="proof",
+        technique="Coq proof (unmarshal o render = id on schema-conforming trees, by induction over trees of any size/depth; render total) + differential correspondence check of renderer and decoder",
+        claim="c01_roundtrip: for every enum environment, float oracle, RFC7951JSONConfig, schema and tree satisfying the boolean well-formedness predicates, "
+              "unmarshalling the rendered JSON into an empty root gives back exactly the tree (all leaves, leaf-lists, list entries with keys, ordered-list "
+              "order, presence containers); c01_render_total: a conforming tree always renders; c01_rerender: re-rendering is identical. No guard on the schema "
+              "shape: compressed code (multi-element paths, several path alternatives, shadow paths), module prefixes and rewrites, all union representations "
+              "(unions are transparent in the model) are covered. Every run checks that the trees generated from the real packages satisfy the hypotheses "
+              "(wf_schemab/wf_envb/wf_cfgb/wf_treeb) and re-evaluates the conclusion with the model, besides comparing render/unmarshal outputs with ygot.",
+        note="Trusted: Coq kernel; hand transcription of structJSON/jsonValue/mapJSON/unmarshalStruct/unmarshalList/... tied by the 'jsonrt' stream on seven generated "
+             "packages (uncompressed simple/wrapper unions, compressed, prefer-state, shadow paths, uncompressed OC, second revision); the schema translator "
+             "(harness/ydrive/tree.go schemaTerm) and tree printer; float text via the oracle tables (per-value check float_okb); the order ygot gives Go-map list "
+             "entries in JSON arrays is abstracted (compared as a set); byte-identical re-rendering is checked by the implementation-side oracle.",
+        coq_files=["Tree/Tree", "Tree/Codec", "Tree/CodecProofs", "Tree/Render", "Tree/TreeOps", "Tree/Unmarshal", "Tree/RoundTrip", "Tree/RoundTripObjProofs",
+                   "Tree/RoundTripProofs", "Corr/TreeCorr", "Corr/WfCorr"],
+        streams=[dict(name="jsonrt", n=N(900, 9000))],
+        signatures=["roundtrip", "render"],
+        trusted=["schema translator and tree printer (tree.go)", "float oracle tables produced with strconv by the harness"],
+        partial="range/length/pattern restrictions are not part of wf_treeb (not needed for losslessness); a leaf-list whose first element is the string U+0000 is excluded (model's set marker); "
+                "Internal-format JSON is not modelled.",
+    ),
     "C08": dict(
         level="proof",
         technique="Coq proof (round-trip/injectivity by scanner invariants) + differential correspondence check",
